@@ -90,18 +90,32 @@ func c16pWriteHistory(h *c16pHistory) {
 	c16pHistFile.Write(append(b, '\n'))
 }
 
+// c16pCap draws a cap: unset, 0, small (1-3, the interesting range), medium, large, and the largest
+// value a uint holds. The second result is the cap as the offline checker reads it (-1 = no cap;
+// MaxUint can never bind and is reported as -1).
 func c16pCap(r *kit.Rand) (*uint, int64) {
-	switch r.Intn(6) {
-	case 0, 1:
+	switch r.Weighted(24, 12, 40, 12, 8, 4) {
+	case 0:
 		return nil, -1
-	case 2:
+	case 1:
 		v := uint(0)
 		return &v, 0
-	default:
+	case 2:
 		v := uint(r.Range(1, 3))
 		return &v, int64(v)
+	case 3:
+		v := uint(r.Range(4, 8))
+		return &v, int64(v)
+	case 4:
+		v := kit.Pick(r, []uint{64, 1000, 1 << 40})
+		return &v, int64(v)
+	default:
+		v := ^uint(0)
+		return &v, -1
 	}
 }
+
+func c16pOver(n int, limit *uint) bool { return limit != nil && uint(n) > *limit }
 
 type c16pPlugin struct {
 	mu       sync.Mutex
@@ -126,6 +140,12 @@ func (p *c16pPlugin) Evict(ctx context.Context, pod *corev1.Pod, opts framework.
 	return !f
 }
 
+func (p *c16pPlugin) reset() {
+	p.mu.Lock()
+	p.received, p.ok, p.fail = nil, map[string]bool{}, map[string]bool{}
+	p.mu.Unlock()
+}
+
 func c16pYielder(r *kit.Rand) func() {
 	var mu sync.Mutex
 	return func() {
@@ -148,7 +168,7 @@ func TestVerifC16Proxy(t *testing.T) {
 	var seed uint64 = 1
 	fmt.Sscanf(os.Getenv("VERIF_SEED"), "%d", &seed)
 	kit.Run(t, kit.Config{Property: "C16", Unit: "proxy", Quick: 8000, Thorough: 60000,
-		Rule: "framework handle's Evictor() (evictorProxy -> real EvictionLimiter with node/namespace/total caps unset|0|1-3 -> fake evict plugin that yields), 1-16 goroutines each evicting 1-4 distinct pods over 1-3 nodes x 1-3 namespaces; 35% of cases script plugin failures per pod; 8% dry-run; distinct = (caps, goroutines, faults?, arrival order at the plugin); non-trivial = >=2 goroutines and a cap that binds"},
+		Rule: "framework handles' Evictor() (evictorProxy -> one process-wide real EvictionLimiter with node/namespace/total caps unset|0|1-3|4-8|large|MaxUint, or no limiter at all -> fake evict plugin that yields); 1-3 profiles (framework handles) share the limiter and run one after the other as deschedulerOnce does, 1-3 cycles with Reset in between, 1-16 goroutines each evicting 1-8 pods (mostly distinct, sometimes the same victim twice) over 1-6 nodes x 1-5 namespaces, pods without node; 35% of cases script plugin failures per pod; 8% dry-run; distinct = (caps, goroutines, profiles, cycles, faults?, arrival order at the plugin); non-trivial = >=2 goroutines and a cap that binds"},
 		func(c *kit.Case) {
 			r := c.R
 			nodeCap, nodeCapV := c16pCap(r)
@@ -156,170 +176,268 @@ func TestVerifC16Proxy(t *testing.T) {
 			totCap, totCapV := c16pCap(r)
 			dry := r.Pct(8)
 			g := kit.Pick(r, []int{1, 2, 2, 3, 4, 4, 6, 8, 12, 16})
-			nodes, nss := r.Range(1, 3), r.Range(1, 3)
+			nodes, nss := kit.Pick(r, []int{1, 2, 2, 3, 3, 4, 6}), kit.Pick(r, []int{1, 2, 2, 3, 3, 5})
+			nodeName, nsName := "node%d", "ns%d"
+			if r.Pct(10) {
+				nodeName, nsName = "x%d", "x%d" // node and namespace names collide
+			}
 			failPct := 0
 			if r.Pct(35) {
 				failPct = kit.Pick(r, []int{10, 30, 60, 100})
 			}
-			per := make([]int, g)
-			total := 0
-			for i := range per {
-				per[i] = r.Range(1, 4)
-				total += per[i]
+			cycles := kit.Pick(r, []int{1, 1, 1, 1, 1, 2, 2, 3})
+			nprof := kit.Pick(r, []int{1, 1, 1, 1, 1, 1, 2, 2, 3})
+			// Profiles run one after the other in deschedulerOnce. Running goroutines of different
+			// profiles at the same time is not something the descheduler does; it is explored in a few
+			// cases and cap overshoots there are only counted (the proxy's critical section is per handle).
+			crossConcurrent := nprof > 1 && r.Pct(20)
+			noLimiter := r.Pct(4)
+			dupPct := 0
+			if r.Pct(10) {
+				dupPct = 25
+			}
+			maxPer := 4
+			if r.Pct(15) {
+				maxPer = 8
 			}
 			plugin := &c16pPlugin{ok: map[string]bool{}, fail: map[string]bool{}, yield: c16pYielder(r.Fork())}
-			pods := make([]*corev1.Pod, total)
-			anyFail := false
-			noNode := 0
-			for i := range pods {
-				pods[i] = &corev1.Pod{ObjectMeta: metav1.ObjectMeta{Name: fmt.Sprintf("p%d", i), Namespace: fmt.Sprintf("ns%d", r.Intn(nss))},
-					Spec: corev1.PodSpec{NodeName: fmt.Sprintf("node%d", r.Intn(nodes))}}
-				if r.Pct(12) {
-					// a pod that is not assigned to a node (pending): subject to the namespace and total caps only
-					pods[i].Spec.NodeName = ""
-					noNode++
-				}
-				if r.Pct(failPct) {
-					plugin.fail[pods[i].Namespace+"/"+pods[i].Name] = true
-					anyFail = true
-				}
+			var limiter *evictions.EvictionLimiter
+			frameworks := make([]*frameworkImpl, nprof)
+			for i := range frameworks {
+				frameworks[i] = &frameworkImpl{dryRun: dry, evictPlugins: []framework.EvictPlugin{plugin}}
 			}
-			limiter := evictions.NewEvictionLimiter(nodeCap, nsCap, totCap)
-			f := &frameworkImpl{dryRun: dry, evictionLimiter: limiter, evictPlugins: []framework.EvictPlugin{plugin}}
-			c.Op("caps node=%d ns=%d total=%d dry=%v goroutines=%d pods=%d failPct=%d", nodeCapV, nsCapV, totCapV, dry, g, total, failPct)
+			if !noLimiter {
+				limiter = evictions.NewEvictionLimiter(nodeCap, nsCap, totCap)
+				for _, f := range frameworks {
+					f.evictionLimiter = limiter
+				}
+			} else {
+				nodeCap, nsCap, totCap, nodeCapV, nsCapV, totCapV = nil, nil, nil, -1, -1, -1
+				c.Count("cases_without_limiter", 1)
+			}
+			c.Op("caps node=%d ns=%d total=%d limiter=%v dry=%v goroutines=%d profiles=%d(concurrent=%v) cycles=%d failPct=%d dupPct=%d", nodeCapV, nsCapV, totCapV, !noLimiter, dry, g, nprof, crossConcurrent, cycles, failPct, dupPct)
 			var clock int64
-			ops := make([][]c16pOp, g)
-			results := make([]bool, total)
-			var wg sync.WaitGroup
-			startCh := make(chan struct{})
-			idx := 0
-			for gi := 0; gi < g; gi++ {
-				mine := pods[idx : idx+per[gi]]
-				base := idx
-				idx += per[gi]
-				wg.Add(1)
-				go func(gi int, mine []*corev1.Pod, base int) {
-					defer wg.Done()
-					<-startCh
-					for j, p := range mine {
-						call := atomic.AddInt64(&clock, 1)
-						ok := f.Evictor().Evict(context.TODO(), p, framework.EvictOptions{PluginName: "verif", Reason: "c16"})
-						ret := atomic.AddInt64(&clock, 1)
-						results[base+j] = ok
-						out := int64(0)
-						if ok {
-							out = 1
-						}
-						ops[gi] = append(ops[gi], c16pOp{Proc: gi, Call: call, Ret: ret, Op: "evict", Node: p.Spec.NodeName, NS: p.Namespace, Out: out})
-					}
-				}(gi, mine, base)
-			}
-			close(startCh)
-			wg.Wait()
-			okNode, okNS := map[string]int{}, map[string]int{}
-			reqNode, reqNS := map[string]int{}, map[string]int{}
-			okTotal := 0
-			byKey := map[string]*corev1.Pod{}
-			for _, p := range pods {
-				byKey[p.Namespace+"/"+p.Name] = p
-				if p.Spec.NodeName != "" {
-					reqNode[p.Spec.NodeName]++
-				}
-				reqNS[p.Namespace]++
-			}
-			c.Count("pods_without_node", noNode)
-			seen := map[string]int{}
+			var all []c16pOp
+			anyFail, binds := false, false
 			arrival := ""
-			for _, k := range plugin.received {
-				seen[k]++
-				p := byKey[k]
-				arrival += fmt.Sprintf("%s:%v,", k, plugin.fail[k])
-				if plugin.ok[k] {
-					if p.Spec.NodeName != "" {
-						okNode[p.Spec.NodeName]++
+			budget := 64 / cycles
+			for cycle := 0; cycle < cycles; cycle++ {
+				if cycle > 0 {
+					// deschedulerOnce: d.evictionLimiter.Reset() at the start of the cycle
+					call := atomic.AddInt64(&clock, 1)
+					if limiter != nil {
+						frameworks[0].Evictor().(EvictionLimiter).Reset()
 					}
-					okNS[p.Namespace]++
-					okTotal++
+					ret := atomic.AddInt64(&clock, 1)
+					all = append(all, c16pOp{Proc: g, Call: call, Ret: ret, Op: "reset"})
+					plugin.reset()
+					c.Op("cycle %d: limiter reset", cycle)
+					c.Count("cycles_after_reset", 1)
+				}
+				per := make([]int, g)
+				total := 0
+				for i := range per {
+					per[i] = r.Range(1, maxPer)
+					if total+per[i] > budget-(g-1-i) {
+						per[i] = 1
+					}
+					total += per[i]
+				}
+				pods := make([]*corev1.Pod, total)
+				calls := map[string]int{}
+				noNode := 0
+				for i := range pods {
+					if i > 0 && r.Pct(dupPct) {
+						pods[i] = pods[r.Intn(i)] // two callers picked the same victim
+						c.Count("duplicate_victims", 1)
+					} else {
+						pods[i] = &corev1.Pod{ObjectMeta: metav1.ObjectMeta{Name: fmt.Sprintf("c%dp%d", cycle, i), Namespace: fmt.Sprintf(nsName, r.Intn(nss))},
+							Spec: corev1.PodSpec{NodeName: fmt.Sprintf(nodeName, r.Intn(nodes))}}
+						if r.Pct(12) {
+							// a pod that is not assigned to a node (pending): subject to the namespace and total caps only
+							pods[i].Spec.NodeName = ""
+							noNode++
+						}
+						if r.Pct(failPct) {
+							plugin.fail[pods[i].Namespace+"/"+pods[i].Name] = true
+							anyFail = true
+						}
+					}
+					calls[pods[i].Namespace+"/"+pods[i].Name]++
+				}
+				ops := make([][]c16pOp, g)
+				results := make([]bool, total)
+				run := func(which func(gi int) bool) {
+					var wg sync.WaitGroup
+					startCh := make(chan struct{})
+					idx := 0
+					for gi := 0; gi < g; gi++ {
+						mine := pods[idx : idx+per[gi]]
+						base := idx
+						idx += per[gi]
+						if !which(gi) {
+							continue
+						}
+						wg.Add(1)
+						go func(gi int, mine []*corev1.Pod, base int) {
+							defer wg.Done()
+							f := frameworks[gi%nprof]
+							<-startCh
+							for j, p := range mine {
+								call := atomic.AddInt64(&clock, 1)
+								ok := f.Evictor().Evict(context.TODO(), p, framework.EvictOptions{PluginName: "verif", Reason: "c16"})
+								ret := atomic.AddInt64(&clock, 1)
+								results[base+j] = ok
+								out := int64(0)
+								if ok {
+									out = 1
+								}
+								ops[gi] = append(ops[gi], c16pOp{Proc: gi, Call: call, Ret: ret, Op: "evict", Node: p.Spec.NodeName, NS: p.Namespace, Out: out})
+							}
+						}(gi, mine, base)
+					}
+					close(startCh)
+					wg.Wait()
+				}
+				if nprof == 1 || crossConcurrent {
+					run(func(int) bool { return true })
+				} else {
+					for pi := 0; pi < nprof; pi++ {
+						run(func(gi int) bool { return gi%nprof == pi })
+					}
+				}
+				for _, o := range ops {
+					all = append(all, o...)
+				}
+				okNode, okNS := map[string]int{}, map[string]int{}
+				reqNode, reqNS := map[string]int{}, map[string]int{}
+				okTotal := 0
+				byKey := map[string]*corev1.Pod{}
+				trueCnt := map[string]int{}
+				for i, p := range pods {
+					k := p.Namespace + "/" + p.Name
+					byKey[k] = p
+					if p.Spec.NodeName != "" {
+						reqNode[p.Spec.NodeName]++
+					}
+					reqNS[p.Namespace]++
+					if results[i] {
+						trueCnt[k]++
+					}
+				}
+				c.Count("pods_without_node", noNode)
+				seen, okCnt := map[string]int{}, map[string]int{}
+				for _, k := range plugin.received {
+					seen[k]++
+					p := byKey[k]
+					if p == nil {
+						c.Harness("plugin saw unknown pod %s", k)
+					}
+					arrival += fmt.Sprintf("%s:%v,", k, plugin.fail[k])
+					if !plugin.fail[k] {
+						okCnt[k]++
+						if p.Spec.NodeName != "" {
+							okNode[p.Spec.NodeName]++
+						}
+						okNS[p.Namespace]++
+						okTotal++
+					}
+				}
+				for i, p := range pods {
+					k := p.Namespace + "/" + p.Name
+					c.Op("cycle %d: evict %s node=%s fail=%v -> %v (plugin calls for the pod=%d of %d Evict calls)", cycle, k, p.Spec.NodeName, plugin.fail[k], results[i], seen[k], calls[k])
+				}
+				c.Count("evict_calls", total)
+				c.Count("plugin_calls", len(plugin.received))
+				c.Count("plugin_successes", okTotal)
+				if dry {
+					if len(plugin.received) != 0 {
+						c.Fail("C16/proxy/dry-run-eviction", "dry-run framework called the evict plugin %d times", len(plugin.received))
+					}
+					continue
+				}
+				binds = binds || c16pOver(total, totCap)
+				capFail := func(sig, format string, a ...any) {
+					if crossConcurrent {
+						c.Count("cap_exceeded_with_profiles_evicting_concurrently", 1)
+						return
+					}
+					c.Fail(sig, format, a...)
+				}
+				for n, k := range okNode {
+					if c16pOver(k, nodeCap) {
+						capFail("C16/proxy/node-cap-exceeded", "%d evictions were issued on %s, per-node cap is %d (goroutines=%d profiles=%d)", k, n, *nodeCap, g, nprof)
+					}
+				}
+				for n, k := range okNS {
+					if c16pOver(k, nsCap) {
+						capFail("C16/proxy/namespace-cap-exceeded", "%d evictions were issued in %s, per-namespace cap is %d (goroutines=%d profiles=%d)", k, n, *nsCap, g, nprof)
+					}
+				}
+				if c16pOver(okTotal, totCap) {
+					capFail("C16/proxy/total-cap-exceeded", "%d evictions were issued in total, cap is %d (goroutines=%d profiles=%d)", okTotal, *totCap, g, nprof)
+				}
+				for n, k := range reqNode {
+					binds = binds || c16pOver(k, nodeCap)
+					if limiter == nil {
+						continue
+					}
+					if got := limiter.NodeEvicted(n); int(got) != okNode[n] {
+						c.Fail("C16/proxy/node-counter", "NodeEvicted(%s)=%d but %d evictions were issued there", n, got, okNode[n])
+					}
+				}
+				for n, k := range reqNS {
+					binds = binds || c16pOver(k, nsCap)
+					if limiter == nil {
+						continue
+					}
+					if got := limiter.NamespaceEvicted(n); int(got) != okNS[n] {
+						c.Fail("C16/proxy/namespace-counter", "NamespaceEvicted(%s)=%d but %d evictions were issued there", n, got, okNS[n])
+					}
+				}
+				if limiter != nil {
+					if got := limiter.NodeEvicted(""); got != 0 {
+						c.Fail("C16/proxy/node-counter", "NodeEvicted(\"\")=%d: evictions of pods without a node were booked on the empty node name", got)
+					}
+					if got := frameworks[0].Evictor().(EvictionLimiter).TotalEvicted(); int(got) != okTotal {
+						c.Fail("C16/proxy/total-counter", "TotalEvicted()=%d but %d evictions were issued", got, okTotal)
+					}
+				}
+				for k, n := range calls {
+					if seen[k] > n {
+						c.Fail("C16/proxy/duplicate-eviction", "pod %s reached the evict plugin %d times for %d Evict calls", k, seen[k], n)
+					}
+					if trueCnt[k] > okCnt[k] {
+						c.Fail("C16/proxy/reported-without-eviction", "%d Evict(%s) calls returned true but the evict plugin evicted it %d times", trueCnt[k], k, okCnt[k])
+					}
+					if trueCnt[k] < okCnt[k] {
+						c.Fail("C16/proxy/evicted-but-refused", "the evict plugin evicted %s %d times but only %d Evict calls returned true (side effect of a refused call)", k, okCnt[k], trueCnt[k])
+					}
+					c.Count("refused_without_plugin_call", n-seen[k])
+				}
+				if c.K < 2 && cycle == 0 {
+					c.Sample(map[string]any{"caps": []int64{nodeCapV, nsCapV, totCapV}, "goroutines": g, "profiles": nprof, "cycles": cycles, "pods": total, "plugin_arrival_order": plugin.received, "results": results})
 				}
 			}
-			for i, p := range pods {
-				k := p.Namespace + "/" + p.Name
-				c.Op("evict %s node=%s fail=%v -> %v (plugin calls=%d)", k, p.Spec.NodeName, plugin.fail[k], results[i], seen[k])
-			}
-			c.Count("evict_calls", total)
-			c.Count("plugin_calls", len(plugin.received))
-			c.Count("plugin_successes", okTotal)
 			if dry {
 				c.Count("dry_run_cases", 1)
-				if len(plugin.received) != 0 {
-					c.Fail("C16/proxy/dry-run-eviction", "dry-run framework called the evict plugin %d times", len(plugin.received))
-				}
 				return
 			}
-			binds := totCap != nil && total > int(*totCap)
-			for n, k := range okNode {
-				if nodeCap != nil && k > int(*nodeCap) {
-					c.Fail("C16/proxy/node-cap-exceeded", "%d evictions were issued on %s, per-node cap is %d (goroutines=%d)", k, n, *nodeCap, g)
-				}
+			if cycles > 1 {
+				c.Count("cases_with_several_cycles", 1)
 			}
-			for n, k := range okNS {
-				if nsCap != nil && k > int(*nsCap) {
-					c.Fail("C16/proxy/namespace-cap-exceeded", "%d evictions were issued in %s, per-namespace cap is %d (goroutines=%d)", k, n, *nsCap, g)
-				}
-			}
-			if totCap != nil && okTotal > int(*totCap) {
-				c.Fail("C16/proxy/total-cap-exceeded", "%d evictions were issued in total, cap is %d (goroutines=%d)", okTotal, *totCap, g)
-			}
-			for n, k := range reqNode {
-				if nodeCap != nil && k > int(*nodeCap) {
-					binds = true
-				}
-				if got := limiter.NodeEvicted(n); int(got) != okNode[n] {
-					c.Fail("C16/proxy/node-counter", "NodeEvicted(%s)=%d but %d evictions were issued there", n, got, okNode[n])
-				}
-			}
-			for n, k := range reqNS {
-				if nsCap != nil && k > int(*nsCap) {
-					binds = true
-				}
-				if got := limiter.NamespaceEvicted(n); int(got) != okNS[n] {
-					c.Fail("C16/proxy/namespace-counter", "NamespaceEvicted(%s)=%d but %d evictions were issued there", n, got, okNS[n])
-				}
-			}
-			if got := f.Evictor().(EvictionLimiter).TotalEvicted(); int(got) != okTotal {
-				c.Fail("C16/proxy/total-counter", "TotalEvicted()=%d but %d evictions were issued", got, okTotal)
-			}
-			for i, p := range pods {
-				k := p.Namespace + "/" + p.Name
-				if seen[k] > 1 {
-					c.Fail("C16/proxy/duplicate-eviction", "pod %s reached the evict plugin %d times for one Evict call", k, seen[k])
-				}
-				if results[i] && !plugin.ok[k] {
-					c.Fail("C16/proxy/reported-without-eviction", "Evict(%s) returned true but the evict plugin did not evict it", k)
-				}
-				if !results[i] && plugin.ok[k] {
-					c.Fail("C16/proxy/evicted-but-refused", "Evict(%s) returned false but the pod was evicted (side effect of a refused call)", k)
-				}
-				if !results[i] && seen[k] == 0 {
-					c.Count("refused_without_plugin_call", 1)
-				}
+			if nprof > 1 {
+				c.Count("cases_with_several_profiles", 1)
 			}
 			if g >= 2 && binds {
 				c.NonTrivial()
 			}
-			c.Seen(nodeCapV, nsCapV, totCapV, g, anyFail, arrival)
-			if !anyFail {
-				var all []c16pOp
-				for _, o := range ops {
-					all = append(all, o...)
-				}
+			c.Seen(nodeCapV, nsCapV, totCapV, g, nprof, cycles, anyFail, arrival)
+			if !anyFail && !crossConcurrent && !noLimiter {
 				sort.Slice(all, func(i, j int) bool { return all[i].Call < all[j].Call })
 				c16pWriteHistory(&c16pHistory{Property: "C16", Unit: "proxy", Kind: "proxy", Case: c.K, Seed: seed, Tier: c.Tier,
 					CapNode: nodeCapV, CapNS: nsCapV, CapTotal: totCapV, Ops: all})
 				c.Count("histories_recorded", 1)
-			}
-			if c.K < 2 {
-				c.Sample(map[string]any{"caps": []int64{nodeCapV, nsCapV, totCapV}, "goroutines": g, "pods": total, "plugin_arrival_order": plugin.received, "results": results})
 			}
 		})
 }
